@@ -240,8 +240,8 @@ func one(v Vec) (why string) {
 		if ok, _ := r.RefExist("refs/bugs/" + id.String()); ok {
 			return "refused commit became a local bug"
 		}
-		if !strings.Contains(reason, "signature") {
-			return "refused, but not because of the signature: " + reason
+		if !strings.Contains(strings.ToLower(reason), "sign") && !strings.Contains(strings.ToLower(reason), "key") {
+			return "DRIVER: refused, but apparently not because of the signature (the forged commit may be invalid otherwise): " + reason
 		}
 		hx.Must(r.UpdateRef("refs/bugs/"+id.String(), head))
 	}
